@@ -65,12 +65,12 @@ var c17ParseDocs = map[*Codec][][]byte{
 }
 
 type c17S struct {
-	A string            `struct:"a"`
-	B []int             `struct:"b"`
-	M map[string]string `struct:"m"`
-	P *c17In            `struct:"p"`
-	I interface{}       `struct:"i"`
-	In c17In            `struct:",inline"`
+	A  string            `struct:"a"`
+	B  []int             `struct:"b"`
+	M  map[string]string `struct:"m"`
+	P  *c17In            `struct:"p"`
+	I  interface{}       `struct:"i"`
+	In c17In             `struct:",inline"`
 }
 type c17In struct {
 	X int8    `struct:"x"`
@@ -118,7 +118,7 @@ func init() {
 	register(func() {
 		engine.Register(&engine.Check{
 			ID: "C17", Level: "model_checking",
-			Rule: "explicit-state search over the histories of one long-lived instance, per component (3 encoders, 3 parsers x {Write whole, Write byte-wise, Parse}, 3 byte-slice and 3 reader pull decoders, fold iterator, unfolder): alphabet of 11-17 complete documents chosen to leave different traces (scalars, empty/nested/known/unknown-length containers, typed containers, extended events incl. empty ones, strings >64 bytes, first and cached use of Go types); every history up to the unpruned depth, then breadth-first with states matched by a reflective fingerprint of the instance's private state; a state is a history, every successor is rebuilt by replaying it on a fresh real instance; oracle on every transition: output of the probe document == output on a new instance, and the idle part of the private state (all stacks, current states, token buffers) == that of a new instance; distinct = transitions from non-initial states",
+			Rule:        "explicit-state search over the histories of one long-lived instance, per component (3 encoders, 3 parsers x {Write whole, Write byte-wise, Parse}, 3 byte-slice and 3 reader pull decoders, fold iterator, unfolder): alphabet of 11-17 complete documents chosen to leave different traces (scalars, empty/nested/known/unknown-length containers, typed containers, extended events incl. empty ones, strings >64 bytes, first and cached use of Go types); every history up to the unpruned depth, then breadth-first with states matched by a reflective fingerprint of the instance's private state; a state is a history, every successor is rebuilt by replaying it on a fresh real instance; oracle on every transition: output of the probe document == output on a new instance, and the idle part of the private state (all stacks, current states, token buffers) == that of a new instance; distinct = transitions from non-initial states",
 			Assumptions: []string{"fingerprint abstraction: bytes beyond len and fixed backing arrays are write-before-read (validated by exploring depth <= unpruned bound without state matching)", "scratch fields isDouble/required/inEscape/valueType are written before read (reviewed) and excluded from the idle comparison", "histories contain only documents the instance accepts"},
 			Families:    c17Families,
 			Bounds: func(tier string) map[string]interface{} {
